@@ -176,7 +176,24 @@ pure ikey(o Bytes, n Bytes) Bytes = "\x02" ++ o ++ tkey(n)
 pure nbal(s Store, o Bytes) Int = s.has(bkey(o)) ? b2i(s.get(bkey(o))) : 0
 pure ns(s Store, n Bytes) NameState = deser_NameState(s.get(nkey(n)))
 
+// NEP-11 accounting as sums over the store: SumNB = sum of all stored balances (keys 0x01 ++ 20-byte owner),
+// CountNT = number of name records (keys 0x21 ++ 20-byte hash) with a 20-byte owner, i.e. of non-TLD names (TLDs are
+// committee-owned: empty owner). Update law of the sums: L-FOLD (A11).
+axiom ripemdLen: forall a Bytes {ripemd160(a)} :: len(ripemd160(a)) == 20
+fold SumNB(s Store) Int = sum k in keys(s) where prefix("\x01", k) && len(k) == 21 : b2i(s.get(k))
+fold CountNT(s Store) Int = sum k in keys(s) where prefix("\x21", k) && len(k) == 21 : (len(deser_NameState(s.get(k)).Owner) == 20 ? 1 : 0)
+
+// A5: RIPEMD-160 is treated as injective on names (collision freedom), needed to tell the records of different names apart
+axiom ripemdInj: forall a Bytes, b Bytes {ripemd160(a), ripemd160(b)} :: ripemd160(a) == ripemd160(b) ==> a == b
+// schema of the name records: a record is stored under the hash of its own name; names of two and more labels are owned by a
+// 20-byte account, TLDs by the committee (empty owner)
+invariant InvNames [C10] = forall n Bytes {store.opt(nkey(n))} :: store.has(nkey(n)) ==> ns(store, n).Name == n
+        && (len(split(n, ".")) > 1 ? len(ns(store, n).Owner) == 20 : len(ns(store, n).Owner) == 0)
+// the NEP-11 identity, for every history: totalSupply == number of non-TLD names ever registered == sum of all balances
+invariant InvSupply [C10] = store.has("\x00") ==> tsupply(store) == SumNB(store) && tsupply(store) == CountNT(store)
+
 func updateBalance(ctx, tokenId, acc, diff)
+  ensures [C10] SumNB(store) == old(SumNB(store)) + (len(acc) == 20 ? diff : 0) && CountNT(store) == old(CountNT(store))
   ensures [C10] nbal(store, acc) == old(nbal(store, acc)) + diff
   ensures [C10] nbal(store, acc) == 0 ==> !store.has(bkey(acc))
   ensures [C10] diff < 0 ==> !store.has(ikey(acc, tokenId))
@@ -225,6 +242,7 @@ func getParentConflictingRecord(ctx, name, fragments) (r)
 // (putSoaRecord: contract of module records)
 
 func updateTotalSupply(ctx, diff)
+  ensures [C10] SumNB(store) == old(SumNB(store)) && CountNT(store) == old(CountNT(store))
   ensures [C10] tsupply(store) == old(tsupply(store)) + diff && store.has("\x00")
   ensures forall k Bytes {store.opt(k)} :: k != "\x00" ==> store.opt(k) == old(store).opt(k)
   ensures notifs == old(notifs)
@@ -235,6 +253,8 @@ func postTransfer(from, to, tokenID, data)
   ensures store == old(store)
 
 func saveDomain(ctx, name, email, refresh, retry, expire, ttl, owner)
+  ensures [C10] SumNB(store) == old(SumNB(store))
+  ensures [C10] CountNT(store) == old(CountNT(store)) - (old(store).has(nkey(name)) && len(old(ns(store, name)).Owner) == 20 ? 1 : 0) + (len(owner) == 20 ? 1 : 0)
   ensures [C10] store.has(nkey(name)) && ns(store, name).Owner == owner && ns(store, name).Name == name
         && ns(store, name).Expiration == now + expire * 1000 && isnil(ns(store, name).Admin)
   ensures forall k Bytes {store.opt(k)} :: k != nkey(name) && !prefix("\x22", k) ==> store.opt(k) == old(store).opt(k)
